@@ -11,12 +11,16 @@ package main
 
 import (
 	"bytes"
+	"context"
 	"fmt"
 	"net"
 	"strings"
 	"testing"
+	"time"
 
 	"github.com/postalsys/muti-metroo/internal/config"
+	"github.com/postalsys/muti-metroo/internal/identity"
+	"github.com/postalsys/muti-metroo/internal/protocol"
 	"github.com/postalsys/muti-metroo/internal/socks5"
 	"github.com/postalsys/muti-metroo/verifharness/policy"
 	"github.com/postalsys/muti-metroo/verifharness/socksrun"
@@ -33,8 +37,19 @@ type Case struct {
 	// Pair, when set, makes this a two-connection scenario on one handler:
 	// Session/Plan describe the connection that is reported, Pair both
 	// connections (side 0 is served first and kept waiting in a write)
+	// MeshAck, when set, derives Plan.BindIP from the real agent: a pending
+	// stream is opened, a STREAM_OPEN_ACK with this bound address type / bytes
+	// is fed through the agent's frame dispatcher, and the bound IP the agent
+	// hands to its dialer's connection becomes the dialer's local address
+	MeshAck  *MeshAck              `json:"mesh_ack,omitempty"`
 	Pair     *[2]socksrun.PairSide `json:"pair,omitempty"`
 	PairSide int                   `json:"pair_side,omitempty"`
+}
+
+// MeshAck is the bound address of a STREAM_OPEN_ACK as an exit agent may send it.
+type MeshAck struct {
+	AddrType uint8  `json:"addr_type"`
+	Addr     []byte `json:"addr"`
 }
 
 // ---------------------------------------------------------------------------
@@ -173,9 +188,10 @@ func replyOK(w []byte) (rep int, ok bool) {
 }
 
 type harness struct {
-	c   *vh.Ctx
-	t   *testing.T
-	coq []string
+	c       *vh.Ctx
+	t       *testing.T
+	coq     []string
+	meshSeq uint64
 }
 
 func (h *harness) monitor(k Case, o socksrun.Observed) {
@@ -306,9 +322,33 @@ func (h *harness) runConfig(ac socksrun.AuthCfg, cases []Case) {
 	var hd *socks5.Handler = a.VerifSOCKS5Server().VerifHandler()
 	methods := hd.VerifAuthMethods()
 	var pairObs [2]socksrun.Observed
+	peer, _ := identity.NewAgentID()
 	for _, k := range cases {
 		k.Cfg = ac
 		var o socksrun.Observed
+		if k.MeshAck != nil {
+			// what the mesh dialer's connection reports as its local address for this acknowledgement
+			h.meshSeq += 2
+			pend := a.VerifStreamManager().OpenStream(h.meshSeq, peer, "dest.example", 80, time.Minute)
+			ack := &protocol.StreamOpenAck{RequestID: pend.RequestID, BoundAddrType: k.MeshAck.AddrType, BoundAddr: k.MeshAck.Addr, BoundPort: 4242}
+			a.VerifProcessFrame(peer, &protocol.Frame{Type: protocol.FrameStreamOpenAck, StreamID: h.meshSeq, Payload: ack.Encode()})
+			select {
+			case res := <-pend.ResultCh:
+				if res == nil || res.Error != nil {
+					c.Count("mesh-ack:rejected")
+					continue
+				}
+				c.Count(fmt.Sprintf("mesh-ack:type=%d,bound-len=%d,nil=%v", k.MeshAck.AddrType, len(res.BoundIP), res.BoundIP == nil))
+				if res.BoundIP != nil && len(res.BoundIP) != 4 && len(res.BoundIP) != 16 {
+					c.Fail("mesh-bound-address-of-odd-length",
+						fmt.Sprintf("STREAM_OPEN_ACK with bound address type %d and %d address bytes: the agent hands a non-nil %d-byte bound IP to the SOCKS5 reply encoder", k.MeshAck.AddrType, len(k.MeshAck.Addr), len(res.BoundIP)), k)
+				}
+				k.Plan = socksrun.DialPlan{Kind: "ok", BindIP: res.BoundIP, BindPort: res.BoundPort}
+			case <-time.After(5 * time.Second):
+				c.Count("mesh-ack:dropped")
+				continue
+			}
+		}
 		if k.Pair != nil {
 			// two connections on this handler; the pair is run when its first side comes up
 			if k.PairSide == 0 || c.Replay != "" {
@@ -359,6 +399,115 @@ func (h *harness) runConfig(ac socksrun.AuthCfg, cases []Case) {
 		}
 		c.Case(key, len(o.Writes) > 0, ko)
 		h.coq = append(h.coq, line)
+	}
+	if c.Replay == "" || (len(cases) == 1 && cases[0].UDP == "create-ok") {
+		h.addressShapes(ac, hd)
+	}
+}
+
+// shapedConn is a client connection whose LocalAddr / RemoteAddr are whatever
+// the listener in front of the handler reports: nil (the WebSocket listener),
+// a non-TCP address, IPv4, IPv6, unspecified.
+type shapedConn struct {
+	net.Conn
+	local, remote net.Addr
+}
+
+func (s shapedConn) LocalAddr() net.Addr  { return s.local }
+func (s shapedConn) RemoteAddr() net.Addr { return s.remote }
+
+type udpOK struct{}
+
+func (udpOK) CreateUDPAssociation(ctx context.Context, clientAddr *net.UDPAddr) (uint64, error) {
+	return 9, nil
+}
+func (udpOK) SetSOCKS5UDPAssociation(streamID uint64, assoc *socks5.UDPAssociation) {}
+func (udpOK) RelayUDPDatagram(streamID uint64, destAddr net.Addr, destPort uint16, addrType byte, rawAddr []byte, data []byte) error {
+	return nil
+}
+func (udpOK) CloseUDPAssociation(streamID uint64) {}
+func (udpOK) IsUDPEnabled() bool                  { return true }
+
+// addressShapes: a successful UDP ASSOCIATE (the relay reply carries an
+// address derived from the control connection) on connections of every
+// address shape. Real sockets are involved (the relay socket), so this runs
+// outside the virtual-time bubble; the only waits are read deadlines that
+// expire on failure paths.
+func (h *harness) addressShapes(ac socksrun.AuthCfg, hd *socks5.Handler) {
+	c := h.c
+	hd.SetUDPHandler(udpOK{})
+	hsk := []byte{5, 1, 0}
+	nw := 2
+	if ac.Enabled {
+		hsk = []byte{5, 1, 2, 1, 1, 'u', 1, 'p'}
+		nw = 3
+	}
+	in := append(append([]byte{}, hsk...), 5, 3, 0, 1, 0, 0, 0, 0, 0, 0)
+	type shape struct {
+		name          string
+		local, remote net.Addr
+	}
+	var nilAddr net.Addr
+	for _, sh := range []shape{
+		{"nil addresses (WebSocket listener)", nilAddr, nilAddr},
+		{"pipe addresses", nil, nil}, // filled below with the pipe's own
+		{"IPv4", &net.TCPAddr{IP: net.IPv4(127, 0, 0, 1), Port: 1080}, &net.TCPAddr{IP: net.IPv4(127, 0, 0, 9), Port: 5555}},
+		{"IPv6", &net.TCPAddr{IP: net.ParseIP("2001:db8::1"), Port: 1080}, &net.TCPAddr{IP: net.IPv6loopback, Port: 5555}},
+		{"unspecified local", &net.TCPAddr{IP: net.IPv4zero, Port: 1080}, &net.TCPAddr{IP: net.IPv4(127, 0, 0, 9), Port: 5555}},
+		{"nil IP in the local address", &net.TCPAddr{Port: 1080}, &net.TCPAddr{Port: 5}},
+		{"UDP-typed addresses", &net.UDPAddr{IP: net.IPv4(127, 0, 0, 1), Port: 1}, &net.UDPAddr{IP: net.IPv4(127, 0, 0, 1), Port: 2}},
+	} {
+		c1, s1 := net.Pipe()
+		var conn net.Conn = shapedConn{Conn: s1, local: sh.local, remote: sh.remote}
+		if sh.name == "pipe addresses" {
+			conn = s1
+		}
+		done := make(chan string, 1)
+		go func() {
+			msg := ""
+			func() {
+				defer func() {
+					if r := recover(); r != nil {
+						msg = fmt.Sprint(r)
+					}
+				}()
+				hd.Handle(conn)
+			}()
+			s1.Close()
+			done <- msg
+		}()
+		go func() { c1.Write(in) }()
+		var writes [][]byte
+		c1.SetReadDeadline(time.Now().Add(10 * time.Second))
+		buf := make([]byte, 256)
+		for len(writes) < nw {
+			n, err := c1.Read(buf)
+			if n > 0 {
+				writes = append(writes, append([]byte{}, buf[:n]...))
+			}
+			if err != nil {
+				break
+			}
+		}
+		c1.Close()
+		var pmsg string
+		select {
+		case pmsg = <-done:
+		case <-time.After(10 * time.Second):
+			pmsg = "Handle did not return within 10 s after the control connection was closed"
+		}
+		k := Case{Cfg: ac, Session: socksrun.Session{Input: in, Note: "UDP ASSOCIATE on a connection with " + sh.name}, UDP: "create-ok"}
+		c.Count("address-shape")
+		switch {
+		case pmsg != "":
+			c.Fail("panic", fmt.Sprintf("UDP ASSOCIATE on a connection with %s: %s", sh.name, pmsg), k)
+		case len(writes) != nw:
+			c.Fail("no-reply-to-complete-request", fmt.Sprintf("UDP ASSOCIATE on a connection with %s: writes % x", sh.name, writes), k)
+		default:
+			if rep, ok := replyOK(writes[nw-1]); !ok || rep != 0 {
+				c.Fail("malformed-reply", fmt.Sprintf("UDP ASSOCIATE on a connection with %s: reply % x", sh.name, writes[nw-1]), k)
+			}
+		}
 	}
 }
 
@@ -488,6 +637,16 @@ func TestVerif(t *testing.T) {
 			}
 			// two connections on one handler, the first kept waiting in its reply write while the second is served
 			fixed = append(fixed, pairCases(ac)...)
+			// bound addresses as they come back from the mesh in a STREAM_OPEN_ACK
+			hsk := []byte{5, 1, 0}
+			if ac.Enabled {
+				hsk = []byte{5, 1, 2, 1, 1, 'u', 1, 'p'}
+			}
+			for _, ma := range []MeshAck{{1, []byte{10, 9, 8, 7}}, {4, []byte{0x20, 1, 0xd, 0xb8, 0, 0, 0, 0, 0, 0, 0, 0, 0, 0, 0, 9}}, {3, nil}, {0, nil}, {9, nil}, {0xff, nil}} {
+				ma := ma
+				fixed = append(fixed, Case{Session: socksrun.Session{Input: append(append([]byte{}, hsk...), 5, 1, 0, 1, 1, 2, 3, 4, 0, 80), ExactEnd: true, Note: "bound address from a STREAM_OPEN_ACK"},
+					UDP: "off", ICMP: "off", MeshAck: &ma})
+			}
 			h.runConfig(ac, append(fixed, cases...))
 		}
 	}
